@@ -132,6 +132,30 @@ pub fn compare_row(
     true
 }
 
+/// Compare two rows as GROUPING keys: unlike a join key, a NULL belongs to
+/// the same group as another NULL (GROUP BY / DISTINCT / UNION treat NULLs
+/// as not distinct).
+#[inline]
+pub fn compare_row_grouping(
+    arrays_a: &[ArrayRef],
+    row_a: usize,
+    arrays_b: &[ArrayRef],
+    row_b: usize,
+) -> bool {
+    for (a, b) in arrays_a.iter().zip(arrays_b.iter()) {
+        match (a.is_null(row_a), b.is_null(row_b)) {
+            (true, true) => continue,
+            (true, false) | (false, true) => return false,
+            (false, false) => {
+                if !compare_array_values(a, row_a, b, row_b) {
+                    return false;
+                }
+            }
+        }
+    }
+    true
+}
+
 /// Compare a single value between two arrays at given rows.
 #[inline]
 fn compare_array_values(a: &ArrayRef, row_a: usize, b: &ArrayRef, row_b: usize) -> bool {
